@@ -11,6 +11,7 @@ import (
 	"math/big"
 	"testing"
 
+	"github.com/aergoio/aergo/v2/contract/system"
 	"github.com/aergoio/aergo/v2/types"
 	"github.com/aergoio/aergo/v2/verifx/ev"
 	"github.com/aergoio/aergo/v2/verifx/vnode"
@@ -22,8 +23,11 @@ type fixture struct {
 	gen  *types.Block
 }
 
-func newFixture(t *testing.T) *fixture {
-	opts := vnode.WorldOpts{Consensus: "dpos", Public: false, NUsers: 3, NBPs: 1, Magic: "verif.regress"}
+func newFixture(t *testing.T) *fixture { return newFixtureNet(t, false) }
+
+// newFixtureNet: a public network charges fees (a private one runs with zero fees).
+func newFixtureNet(t *testing.T, public bool) *fixture {
+	opts := vnode.WorldOpts{Consensus: "dpos", Public: public, NUsers: 3, NBPs: 1, Magic: "verif.regress"}
 	spec := vnode.NewSpec(opts)
 	G, err := vnode.Open(spec, "")
 	if err != nil {
@@ -87,6 +91,49 @@ func TestC03RegressionFailedReorg(t *testing.T) {
 	}
 	rec.Case("regression", "failed-reorg-residue", true, func() interface{} { return "a1 | b1 b2(bad state root): deliver a1,b1,b2bad,a2" })
 	rec.Case("regression", "failed-reorg-residue-2", true, func() interface{} { return "second fingerprint of the same regression" })
+}
+
+// fixed: C07 reorg-executes-new-branch-with-old-branch-params. The main chain votes a system parameter in (gas price
+// 3 aer instead of 50 gaer); a longer side branch, on which nothing was voted, holds a fee-paying transaction. The
+// side branch is valid and must be adopted; before the fix its blocks were re-executed with the parameters of the
+// branch being abandoned, the fee and with it the state root came out different and the reorganisation failed.
+func TestC07RegressionParamsDuringReorg(t *testing.T) {
+	rec := ev.New("C07", "regress-params-during-reorg")
+	defer rec.Flush()
+	f := newFixtureNet(t, true)
+	gov := func(prev *types.Block, from int, nonce uint64, to string, amount *big.Int, payload []byte) *types.Tx {
+		s := &vnode.TxSpec{Kind: "gov", From: from, Nonce: nonce, Type: types.TxType_GOVERNANCE, Recipient: []byte(to), Amount: amount, Payload: payload}
+		return s.Build(f.G.ChainIDHashFor(prev))
+	}
+	f.G.SwitchTo()
+	a1 := f.block(t, f.gen, 1,
+		gov(f.gen, 0, 1, types.AergoSystem, vnode.StakeMin, vnode.CallInfo("v1stake")),
+		gov(f.gen, 0, 2, types.AergoSystem, new(big.Int), vnode.CallInfo("v1voteDAO", "GASPRICE", "3")))
+	a2 := f.block(t, a1.Block, 1)
+	f.G.SwitchTo()
+	pay := &vnode.TxSpec{Kind: "normal", From: 1, Nonce: 1, Type: types.TxType_NORMAL, Recipient: vnode.KeyN(2).Addr, Amount: vnode.Aergo, Payload: bytes.Repeat([]byte("p"), 300)}
+	s1 := f.block(t, f.gen, 2, pay.Build(f.G.ChainIDHashFor(f.gen)))
+	s2 := f.block(t, s1.Block, 1)
+	s3 := f.block(t, s2.Block, 1)
+	f.D.SwitchTo()
+	for _, b := range []*types.Block{a1.Block, a2.Block} {
+		if err := f.D.AddPeer(b); err != nil {
+			t.Fatal(err)
+		}
+	}
+	voted := system.GetGasPrice().String()
+	var last error
+	for _, b := range []*types.Block{s1.Block, s2.Block, s3.Block} {
+		last = f.D.AddPeer(b)
+	}
+	if !bytes.Equal(f.D.Best().BlockHash(), s3.Block.BlockHash()) {
+		t.Fatalf("the valid side branch of 3 blocks was not adopted over the main chain of 2 (best block %d, error of the last delivery: %v); gas price voted in on the main chain: %s aer",
+			f.D.Best().BlockNo(), last, voted)
+	}
+	rec.Case("regression", "params-during-reorg", voted == "3", func() interface{} {
+		return "a1[stake, voteDAO GASPRICE 3] a2 | s1[transfer with a 300-byte payload] s2 s3: deliver a1,a2,s1,s2,s3"
+	})
+	rec.Case("regression", "params-during-reorg-2", voted == "3", nil)
 }
 
 // fixed: C04 stale-signature-verdict
